@@ -493,6 +493,36 @@ def opRecordStop (req : Json) : Except String Json := do
         ("prelim_after", .str (match d.prelim with | .absent => "absent" | .complete _ => "complete" | .partialWrite => "partial"))]))
     | _ => throw "no final link"
 
+/-- `in_toto_run` on two tree states (before / after the command): the link it builds and the file it writes. -/
+def opInTotoRun (req : Json) : Except String Json := do
+  let o ← recOptsOf req
+  let before ← nodeOf (← field req "before")
+  let after ← nodeOf (← field req "after")
+  let name ← toStr (← field req "name")
+  let mats ← strList (← field req "material_list")
+  let prods ← strList (← field req "product_list")
+  let command ← strList (← field req "command")
+  let run ← match fieldD req "run" .null with
+    | .null => pure none
+    | b => do
+      let rv := ((fieldD b "return-value" (.num 0)).getInt?).toOption.getD 0
+      pure (some ({ returnValue := rv, stdout := ← toStr (fieldD b "stdout" (.str "")), stderr := ← toStr (fieldD b "stderr" (.str "")) } : Byproducts))
+  let streams ← boolOf (fieldD req "record_streams" (.bool false))
+  let signer ← optStrOf (fieldD req "signer" .null)
+  let mdir ← optStrOf (fieldD req "metadata_directory" .null)
+  let dictJson (x : Dict Str RecVal) : Json := .arr (x.map (fun (k, v) => Json.arr #[ofStr k, recValJson v])).toArray
+  let linkJson (l : RunLink) : Json := Json.mkObj [("name", ofStr l.name), ("materials", dictJson l.materials),
+    ("products", dictJson l.products), ("command", .arr (l.command.map ofStr).toArray),
+    ("byproducts", match l.byproducts with
+      | none => .null
+      | some b => Json.mkObj [("return-value", .num b.returnValue), ("stdout", ofStr b.stdout), ("stderr", ofStr b.stderr)]),
+    ("signer", match l.signer with | none => .null | some k => ofStr k)]
+  match inTotoRun o name mats prods before after command run streams signer mdir with
+  | .error e => pure (errJson e)
+  | .ok (l, written) =>
+    pure (okJson (Json.mkObj [("link", linkJson l),
+      ("written", match written with | none => .null | some (path, l') => Json.mkObj [("path", ofStr path), ("link", linkJson l')])]))
+
 def opCliStatus (req : Json) : Except String Json := do
   let tool ← match (← field req "tool") with
     | .str "verify" => pure Tool.verify | .str "sign" => pure Tool.sign | .str "sign_verify" => pure Tool.signVerify
@@ -584,6 +614,7 @@ def dispatch (op : String) (req : Json) : Except String Json :=
   | "cli_status" => opCliStatus req
   | "cli_main" => opCliMain req
   | "record_stop" => opRecordStop req
+  | "in_toto_run" => opInTotoRun req
   | _ => throw s!"unknown op {op}"
 
 def handle (line : String) : String :=
